@@ -135,6 +135,27 @@ namespace vh
     }
     for (auto e : m.AsVector())
       o.d(e);
+    // Max / Min with a threshold in the middle of index-coded data
+    {
+      DM a(rows, cols, 0.0), b2(rows, cols, 0.0);
+      auto& va = a.AsVector();
+      auto& vb = b2.AsVector();
+      // scattered values: about half of the slots of every group lie on each side of the threshold
+      auto val = [&](std::size_t i) { return (double)((i * 7919) % (va.size() + 1) + 1); };
+      for (std::size_t i = 0; i < va.size(); ++i)
+        va[i] = vb[i] = val(i);
+      double thr = va.size() / 2 + 0.5;
+      a.Max(thr);
+      b2.Min(thr);
+      o.key("max");
+      for (std::size_t i = 0; i < va.size(); ++i)
+        if (va[i] != val(i))
+          o.n(i);
+      o.key("min");
+      for (std::size_t i = 0; i < vb.size(); ++i)
+        if (vb[i] != val(i))
+          o.n(i);
+    }
     return o.os.str();
   }
 
@@ -426,10 +447,10 @@ namespace vh
     }
   };
 
-  template<class SM, class LU>
-  struct LsSpy : micm::LinearSolver<SM, LU>
+  template<class SM, class LU, class SML = SM, class SMU = SM>
+  struct LsSpy : micm::LinearSolver<SM, LU, SML, SMU>
   {
-    using B = micm::LinearSolver<SM, LU>;
+    using B = micm::LinearSolver<SM, LU, SML, SMU>;
     using B::B;
     template<std::size_t D>
     static void print(Out& o, const B& x)
@@ -507,7 +528,7 @@ namespace vh
         o.d(m[b][e.first][e.second]);
   }
 
-  template<class DM, class SM, class LU, std::size_t D>
+  template<class DM, class SM, class LU, std::size_t D, class SML = SM, class SMU = SM>
   std::string luSeparate(Tok& t, std::size_t n, std::size_t blocks)
   {
     std::size_t ne = t.nat();
@@ -522,8 +543,8 @@ namespace vh
         for (auto& e : es)
           A[bl][e.first][e.second] = avals[i++];
     }
-    micm::LinearSolver<SM, LU> ls(A, garbage);
-    auto lu = LU::template GetLUMatrices<SM, SM, SM>(A, garbage);
+    micm::LinearSolver<SM, LU, SML, SMU> ls(A, garbage);
+    auto lu = LU::template GetLUMatrices<SM, SML, SMU>(A, garbage);
     ls.Factor(A, lu.first, lu.second);
     DM x = denseFrom<DM>(blocks, n, b);
     ls.template Solve<DM>(x, lu.first, lu.second);
@@ -531,7 +552,7 @@ namespace vh
     o.os << "lu";
     printPattern(o, "Lp", lu.first);
     printPattern(o, "Up", lu.second);
-    LsSpy<SM, LU>::template print<D>(o, ls);
+    LsSpy<SM, LU, SML, SMU>::template print<D>(o, ls);
     o.key("L");
     printSparseVals(o, lu.first, blocks);
     o.key("U");
@@ -1349,5 +1370,28 @@ namespace vh
     for (auto v : x.AsVector())
       o.d(v);
     return o.os.str();
+  }
+
+  template<std::size_t L, bool CSC>
+  std::string KernelCfg<L, CSC>::lumix(Tok& t, std::size_t kind, std::size_t n, std::size_t cscL, std::size_t cscU, std::size_t blocks)
+  {
+    using DM = typename DenseOf<L>::type;
+    using SM = SparseOf<L, CSC>;
+    using S0 = SparseOf<L, false>;
+    using S1 = SparseOf<L, true>;
+    constexpr std::size_t D = rankDiv<L>();
+    using DOO = micm::LuDecompositionDoolittle;
+    using MOZ = micm::LuDecompositionMozart;
+    switch ((kind == 1 ? 4 : 0) + cscL * 2 + cscU)
+    {
+      case 0: return luSeparate<DM, SM, DOO, D, S0, S0>(t, n, blocks);
+      case 1: return luSeparate<DM, SM, DOO, D, S0, S1>(t, n, blocks);
+      case 2: return luSeparate<DM, SM, DOO, D, S1, S0>(t, n, blocks);
+      case 3: return luSeparate<DM, SM, DOO, D, S1, S1>(t, n, blocks);
+      case 4: return luSeparate<DM, SM, MOZ, D, S0, S0>(t, n, blocks);
+      case 5: return luSeparate<DM, SM, MOZ, D, S0, S1>(t, n, blocks);
+      case 6: return luSeparate<DM, SM, MOZ, D, S1, S0>(t, n, blocks);
+      default: return luSeparate<DM, SM, MOZ, D, S1, S1>(t, n, blocks);
+    }
   }
 }  // namespace vh
